@@ -348,3 +348,25 @@ v("C17", "Dm14Query.py", "        values = []\n        for i in range(len(raw_by
 v("C19,C18", "Dm14Server.py", "                self.pgn = pgn\n                self.sa = sa\n                self.status", "                self.pgn = pgn\n                self.status", "break", "requester address never stored in the IDLE arm")
 v("C04", CA, "        time_to_sleep = 0.500\n", "        pass\n", "break", "claim timer callback reads an unassigned local once the claim is done (deletion sweep)")
 v("C16", DM, "            priority = 7\n", "            pass\n", "break", "DM1 sender reads an unassigned local for messages longer than 8 bytes (deletion sweep)")
+
+# ---------------------------------------------------------------- from the statement-deletion sweep (tools/del_sweep.py): steps left out
+v("C01,C10", J21, "            self._snd_buffer[buffer_hash]['state'] = self.SendBufferState.SENDING_IN_CTS\n            self._snd_buffer[buffer_hash]['deadline'] = time.time()\n", "            self._snd_buffer[buffer_hash]['state'] = self.SendBufferState.SENDING_IN_CTS\n", "break", "CTS arm leaves the T3 deadline in place: the granted packets are sent 1.25 s late")
+v("C01,C17", J21, "            self.__notify_subscribers(mid.priority,pgn,mid.source_address,dest_address,timestamp,data)\n\n            self._snd_buffer[buffer_hash]['state'] = self.SendBufferState.TRANSMISSION_FINISHED", "            self._snd_buffer[buffer_hash]['state'] = self.SendBufferState.TRANSMISSION_FINISHED", "break", "end-of-message acknowledge not reported to the originator's listeners")
+v("C02", J22, "                            buf['next_packet_to_send'] += 1\n\n                            should_break = False", "                            should_break = False", "break", "FD burst loop does not advance the segment index")
+v("C02", J22, "                            if last_segment:\n                                self.__send_tp_eom_status(buf['src_address'], buf['dest_address'], buf['session'], buf['message_size'], buf['num_segments'], buf['pgn'])\n", "", "break", "no end-of-message status after the last FD segment")
+v("C02,C06", J22, "            self._rcv_buffer[buffer_hash]['data'] = self._rcv_buffer[buffer_hash]['data'][:self._rcv_buffer[buffer_hash]['message_size']]\n            # finished reassembly\n            if dest_address != ParameterGroupNumber.Address.GLOBAL:\n                # set deadlin", "            # finished reassembly\n            if dest_address != ParameterGroupNumber.Address.GLOBAL:\n                # set deadlin", "break", "FD reassembly delivered with the padding of the last segment")
+v("C06", J21, "                    if next_wakeup > buf['deadline']:\n                        next_wakeup = buf['deadline']\n                else:\n                    # deadline reached\n                    logger.info(\"Deadline reached for rcv_buffer", "                    if next_wakeup > buf['deadline']:\n                        pass\n                else:\n                    # deadline reached\n                    logger.info(\"Deadline reached for rcv_buffer", "break", "pending receive deadline not taken over as next wake-up")
+v("C11", J22, "        if frame_format == FrameFormat.FBFF:\n            self.__send_message(src_address, False, data, fd_format=True)\n        else:", "        if frame_format == FrameFormat.FBFF:\n            pass\n        else:", "break", "11-bit multi-PG frame assembled but not sent")
+v("C11", J22, "            self._process_multi_pg(mid, dest_address, data, timestamp)\n", "            pass\n", "break", "received multi-PG frames not decoded")
+v("C16", DM, "            self._parse_dm1_receive_data()\n", "", "break", "received DM1 not parsed")
+v("C16", DM, "        self._dtc_dic_list = []\n        for i in range(number_dtc):", "        for i in range(number_dtc):", "break", "codes of all received DM1 pile up")
+v("C16", DM, "        self._ca.remove_timer(self._send)\n", "        pass\n", "break", "stop_send removes nothing")
+v("C17", S, "                self.state = ResponseState.WAIT_OPERATION_COMPLETE\n", "", "break", "operation-complete DM15 sent from the wrong state")
+v("C17", S, "                self.proceed = True\n                self.state = ResponseState.SEND_OPERATION_COMPLETE\n                self._ca.subscribe(self.parse_dm14)\n", "                self.proceed = True\n                self.state = ResponseState.SEND_OPERATION_COMPLETE\n", "break", "closing-DM14 handler not registered after a short read")
+v("C17", Q, "                    self.state = QueryState.IDLE\n                    self.data_queue.put(self.mem_data)\n", "                    self.state = QueryState.IDLE\n", "break", "result never handed to the waiting caller")
+v("C18", S, "            self.state = ResponseState.SEND_ERROR\n        mem_data = None", "            pass\n        mem_data = None", "break", "a refusal is answered from the proceed state")
+v("C18", S, "        self.state = ResponseState.IDLE\n        self.sa = None\n        self.seed = None", "        self.sa = None\n        self.seed = None", "break", "reset_query does not return to IDLE")
+v("C18", M, "                            else:\n                                self.server.error = 0x1003\n                                self.server.set_busy(True)\n                                self.server.parse_dm14(\n                                    priority, pgn, sa, timestamp, data\n                                )\n", "                            else:\n                                self.server.error = 0x1003\n                                self.server.set_busy(True)\n", "break", "wrong key is not answered with an error DM15")
+v("C14", CA, "        self._subscribers_request.append(callback)\n", "        pass\n", "break", "subscribe_request records nothing")
+v("C05,C14", J21, "        self._cas.append(ca)\n", "        pass\n", "break", "add_ca does not register the CA")
+v("C07", J22, "                            last_segment = (package+1) == buf['num_segments']\n", "", "break", "name read but never bound (NameError in the job thread)")
